@@ -61,9 +61,22 @@ def expected_result(op, name, val):
     return {"get": val, "get_many": {txt: val}, "getnext1": (txt, val), "getbulk1": [(txt, val)]}[op]
 
 
+def genuine_exchange(cfg, cl_, link, k):
+    """One ordinary authenticated (and encrypted) get on the session: acceptance of later replies must not depend on it."""
+    cl_.send("get", "1.3.6.1.2.1.1.3.0")
+    got = link.recv_all()
+    req = ag.decode_request(cfg, got[0], strict=False)
+    link.send(ag.build_reply(cfg, req, [rb.varbind(rb.enc_oid((1, 3, 6, 1, 2, 1, 1, 3, 0)), rb.enc_int(77 + k))]))
+    if cl_.recv("get") != 77 + k:
+        raise core.Failure("genuine-exchange-failed", "plain authenticated get failed on %s" % cfg.describe())
+
+
 def execute(G, cfg, op, cl, payload, link):
     cl_ = drivers.NbClient(G, cfg, link)
     link.recv_all()
+    # history: 0..2 genuine exchanges first (a verdict cached from an earlier authentic reply must not leak to the forgery)
+    for k in range(payload % 3):
+        genuine_exchange(cfg, cl_, link, k)
     call = CALLS[op]
     it = None
     if op in ("getnext1", "getbulk1"):
